@@ -2,6 +2,7 @@ package vhcmd
 
 import (
 	"os"
+	"strings"
 
 	"verifharness/model"
 	"verifharness/replay"
@@ -12,6 +13,7 @@ func init() {
 	register("paths", "replay path probes of specs/PathsGen.tla against traversal.Get/Focus and datamodel.ParsePath", func(args []string) int {
 		fs := newFlags("paths")
 		in := fs.String("in", "-", "case file (TLC output lines)")
+		only := fs.String("only", "", "comma separated probe kinds to replay (default: all)")
 		fs.Parse(args)
 		col := run.NewCollector("paths")
 		r := run.Input(*in)
@@ -22,6 +24,10 @@ func init() {
 				col.Add(run.Finding{Case: idx, Step: -1, Target: "harness", Rule: "decode-case", Class: "error", Detail: err.Error()})
 				return
 			}
+			if *only != "" && !strings.Contains(","+*only+",", ","+p.Kind+",") {
+				return
+			}
+			col.AddExtra("kind_"+p.Kind, 1)
 			f, n := replay.ReplayPathProbe(&p)
 			if f != nil {
 				f.Case = idx
@@ -29,7 +35,7 @@ func init() {
 				col.Add(*f)
 			}
 			key := ""
-			if len(p.Path) > 0 {
+			if len(p.Path) > 0 || len(p.Joined) > 0 {
 				key = string(line)
 			}
 			col.Case(key, n, sampleOf(line))
